@@ -32,12 +32,15 @@ struct Shared {
     violations: Mutex<Vec<String>>,
     /// stop at the first violation whose tag mentions this property; with `None`: at the first violation of any kind
     stop_on: Option<String>,
+    /// guards obtained by a sweep (stream, expiry) are only looked at
+    sweeps_ro: bool,
 }
 
 impl Shared {
-    fn new(nkeys: usize, stop_on: Option<String>) -> Self {
+    fn new(nkeys: usize, stop_on: Option<String>, sweeps_ro: bool) -> Self {
         Shared {
             stop_on,
+            sweeps_ro,
             occupied: (0..nkeys).map(|_| AtomicBool::new(false)).collect(),
             shadow: (0..nkeys).map(|_| AtomicI64::new(-1)).collect(),
             stop: AtomicBool::new(false),
@@ -137,6 +140,17 @@ macro_rules! use_guard {
     }};
 }
 
+/// a guard obtained in a sweep over all entries, looked at but not changed (so that the population stays)
+macro_rules! look_at_guard {
+    ($sh:expr, $g:expr, $how:expr) => {{
+        let g = $g;
+        let k = *g.key();
+        $sh.enter(k, g.value().copied(), $how);
+        $sh.leave(k);
+        drop(g);
+    }};
+}
+
 macro_rules! evict_all {
     ($sh:expr, $gs:expr, $how:expr) => {{
         for mut g in $gs {
@@ -157,7 +171,7 @@ macro_rules! stress_map {
     ($name:ident, $ty:ty, $lru:expr) => {
         fn $name(threads: usize, millis: u64, seed: u64, nkeys: u32, stop_on: Option<String>, limits: bool) -> Report {
             let map: Arc<$ty> = Arc::new(<$ty>::new());
-            let sh = Arc::new(Shared::new(nkeys as usize, stop_on));
+            let sh = Arc::new(Shared::new(nkeys as usize, stop_on, !limits));
             let mut handles = Vec::new();
             for t in 0..threads {
                 let map = Arc::clone(&map);
@@ -166,11 +180,16 @@ macro_rules! stress_map {
                     let mut rng = Rng(seed.wrapping_mul(0x9E37_79B9_7F4A_7C15).wrapping_add(t as u64 * 7919 + 1) | 1);
                     while !sh.stop.load(Ordering::Relaxed) {
                         let k = rng.below(nkeys as u64) as u32;
-                        let limit = std::num::NonZeroUsize::new(1 + rng.below(nkeys as u64) as usize).unwrap();
-                        // large populations: the soft-limited calls and the sweeps over all entries (stream, expiry) become
-                        // plain calls, so that the population is not cut down all the time
+                        // now and then a limit far above the population
+                        let limit = if rng.below(8) == 0 {
+                            std::num::NonZeroUsize::new(usize::MAX).unwrap()
+                        } else {
+                            std::num::NonZeroUsize::new(1 + rng.below(nkeys as u64) as usize).unwrap()
+                        };
+                        // large populations: the soft-limited calls become plain calls and the sweeps over all entries (stream,
+                        // expiry) only look at their guards, so that the population is not cut down all the time
                         let mut choice = rng.below(11);
-                        if !limits && (choice == 4 || choice == 5 || choice == 9 || choice == 10) {
+                        if !limits && (choice == 4 || choice == 5) {
                             choice = 0;
                         }
                         let r = catch_unwind(AssertUnwindSafe(|| match choice {
@@ -264,8 +283,12 @@ macro_rules! stress_map {
                                                 if g.value().is_none() {
                                                     sh.violation(format!("C11: stream yielded a guard without value (key {})", g.key()));
                                                 }
-                                                let mut r2 = Rng(rng.next() | 1);
-                                                use_guard!(sh, g, r2, "lock_all_entries");
+                                                if sh.sweeps_ro {
+                                                    look_at_guard!(sh, g, "lock_all_entries");
+                                                } else {
+                                                    let mut r2 = Rng(rng.next() | 1);
+                                                    use_guard!(sh, g, r2, "lock_all_entries");
+                                                }
                                             }
                                             None => break,
                                         }
@@ -358,8 +381,12 @@ impl Expire for LockableLruCache<u32, u32> {
             if g.value().is_none() {
                 sh.violation(format!("C10: expiry returned a guard without value (key {})", g.key()));
             }
-            let mut r2 = Rng(rng.next() | 1);
-            use_guard!(sh, g, r2, "lock_entries_unlocked_for_at_least");
+            if sh.sweeps_ro {
+                look_at_guard!(sh, g, "lock_entries_unlocked_for_at_least");
+            } else {
+                let mut r2 = Rng(rng.next() | 1);
+                use_guard!(sh, g, r2, "lock_entries_unlocked_for_at_least");
+            }
         }
     }
 }
@@ -372,7 +399,7 @@ stress_map!(stress_lru, LockableLruCache<u32, u32>, true);
 
 fn stress_pool(threads: usize, millis: u64, seed: u64, nkeys: u32, stop_on: Option<String>) -> Report {
     let pool: Arc<LockPool<u32>> = Arc::new(LockPool::new());
-    let sh = Arc::new(Shared::new(nkeys as usize, stop_on));
+    let sh = Arc::new(Shared::new(nkeys as usize, stop_on, false));
     let mut handles = Vec::new();
     for t in 0..threads {
         let pool = Arc::clone(&pool);
